@@ -3,15 +3,26 @@ PROP = {
     "technique": ("runtime monitor: sequential differential oracle (reference model of the circuit map) on the real "
                   "circuitMap over a real bbolt backend, restart forks after every durable write, write-failure "
                   "injection through a kvdb.Backend wrapper, porcupine linearizability check of concurrent histories "
-                  "under -race"),
+                  "under -race; switch-level reference-model monitor: a real Switch (circuit map + resolution-message store "
+                  "+ mailboxes) on a persistent DB with mock links, restarted in place at arbitrary points"),
     "level_text": ("PRNG op sequences (commit batches with duplicates, open, trim, close, fail, delete, channel "
                    "advance/close, restart) over 3 channels x 4 HTLC ids; every return value and every lookup compared "
                    "with a sequential model; after every op that wrote to disk the bbolt file is copied and a fresh "
                    "circuit map on the copy must equal the model's restart image (NextLocalHtlcIndex is read from real "
                    "channels advanced with AddHTLC+SignNextCommitment); every write transaction of an op can be failed. "
-                   "Concurrent 3-goroutine histories are checked for linearizability per circuit."),
+                   "Concurrent 3-goroutine histories are checked for linearizability per circuit. "
+                   "Switch unit: PRNG op sequences over 1-3 forwarded HTLCs (one incoming, two outgoing channels) on a real "
+                   "Switch: forwards and duplicate re-forwards, outgoing link receive / OpenCircuits / commit / local FailAdd, "
+                   "off-chain responses, outgoing channel on chain + ProcessContractResolution (settle|fail, duplicates, "
+                   "competing off-chain response), channel fully closed, incoming link receive / lock-in (DeleteCircuits + "
+                   "AckPacket, or only the first half) / flap, Switch Stop+New+Start on the same DB; adds handed per HTLC, every "
+                   "response reaching the incoming link and the restarted switch's circuits are compared with a model of "
+                   "(circuit, keystone committed?, resolution stored?, locked in?, outgoing channel status)."),
     "level_note": ("Sampled sequences, not all; crash points are transaction boundaries (every circuit-map write is one "
-                   "kvdb transaction); switch-level at-most-once on the wire is C08's monitor."),
+                   "kvdb transaction); at-most-once on the wire between real links is C08's monitor. The switch unit stops "
+                   "the switch gracefully between operations (no crash inside a switch operation), has no real channels in "
+                   "its DB (keystones are trimmed by the outgoing link's start as channelLink.Start does, off-chain responses "
+                   "are re-forwarded by the mock link, not from forwarding packages) and never closes the incoming channel."),
     "design_ref": "DESIGN.md §3 C07",
     "rule": ("A sequence is non-trivial when at least one restart (fork or in place) was compared; distinct = distinct "
              "sets of exhibited behaviours (dup dropped with keystone / in memory, dup failed back after restart, "
@@ -23,6 +34,10 @@ PROP = {
         "half-open circuit, one goroutine owns CommitCircuits/DeleteCircuits of an incoming key",
         "FetchClosedChannels/CheckResolutionMsg are answered from the case; FetchAllOpenChannels returns real channels",
         "a pending on-chain resolution is never combined with a fully closed *incoming* channel (statement ambiguous)",
+        "switch unit: the contract court sends a resolution message only for an outgoing HTLC that reached a commitment, "
+        "always the same message for one HTLC; the incoming link forwards an add at most once per link epoch and never "
+        "after it committed a response; a response counts as locked in once the link deleted the circuit and acked the "
+        "packet (channelLink.ackDownStreamPackets) - until then a re-delivery after a link or switch restart is expected",
     ],
     "race_anchors": ["htlcswitch/circuit_map.go", "htlcswitch/circuit.go"],
     "eval_counter": "ops",
@@ -51,5 +66,25 @@ PROP = {
         "gomaxprocs": 4,
         "floors": {"quick": {"histories_linearizable": 800, "conc_ops": 19000},
                    "thorough": {"histories_linearizable": 20000, "conc_ops": 480000}},
+    }, {
+        "name": "switch", "pkg": "htlcswitch", "test": "TestVerifC07Switch",
+        "files": ["htlcswitch/c07_test.go", "htlcswitch/c07sw_test.go"],
+        "shards": {"quick": 8, "thorough": 16},
+        "watchdog": {"quick": 900, "thorough": 5400},
+        "floors": {"quick": {"sw_ops": 60000, "sw_restarts": 7500, "sw_restart_state_evals": 7500, "sw_forwards": 6000,
+                             "sw_response_evals": 4700, "sw_resolutions": 1600, "sw_awaiting_resolution_evals": 650,
+                             "sw_resolution_redelivered_after_restart": 650,
+                             "sw_resolution_redelivered_after_full_close": 500, "sw_kept_by_resolution": 450,
+                             "sw_purged_closed_circuits": 50, "sw_failed_back_after_restart": 2000,
+                             "sw_dup_dropped": 1400, "sw_lock_ins": 1300, "sw_second_response_dropped": 600,
+                             "sw_trimmed_keystones": 270},
+                   "thorough": {"sw_ops": 2400000, "sw_restarts": 300000, "sw_restart_state_evals": 300000,
+                                "sw_forwards": 240000, "sw_response_evals": 190000, "sw_resolutions": 64000,
+                                "sw_awaiting_resolution_evals": 26000,
+                                "sw_resolution_redelivered_after_restart": 26000,
+                                "sw_resolution_redelivered_after_full_close": 20000, "sw_kept_by_resolution": 18000,
+                                "sw_purged_closed_circuits": 2000, "sw_failed_back_after_restart": 80000,
+                                "sw_dup_dropped": 56000, "sw_lock_ins": 52000, "sw_second_response_dropped": 24000,
+                                "sw_trimmed_keystones": 10000}},
     }],
 }
